@@ -145,8 +145,15 @@ def run_dist(r, case, g):
                 with torch.no_grad():
                     sp_ = d.sample(20000, c)
                 sp_ = sp_.reshape(-1, P) if c is None else sp_[0].reshape(-1, P)
-                t64, t112 = _grid3(lp, sp_, 64)[0], _grid3(lp, sp_, 112)[0]
-                _judge_int(r, label, t112, abs(t112 - t64), 5e-3, 2e-2, shape, det)
+                t64, t112, t160 = _grid3(lp, sp_, 64)[0], _grid3(lp, sp_, 112)[0], _grid3(lp, sp_, 160)[0]
+                r.worst("grid3_cell_mass", _grid3.cell_mass)
+                if _grid3.cell_mass > 0.02 or abs(t160 - t112) > 3e-3 or abs(t112 - t64) > 3e-2:
+                    # needles below the grid spacing, or heavy-tailed / multi-scale densities on which the three
+                    # resolutions do not settle (0.68 -> 0.93 -> 0.91 was observed): not decidable by this grid
+                    r.count("normalisation_checks")
+                    r.count("integrals_undecided")
+                else:
+                    _judge_int(r, label, t160, abs(t160 - t112), 5e-3, 2e-2, shape, det)
             else:
                 _importance(r, d, lp, label, shape, P, me, c, g, det)
         except Exception as e:
@@ -231,10 +238,10 @@ def run_dist(r, case, g):
             elif cfg["dist"] == "mademog" and P == 3:
                 # not factorised: marginals from a 3-D tensor grid of the joint density (two resolutions)
                 res = {}
-                for GN in (64, 112):
+                for GN in (80, 112):
                     res[GN] = _grid3(lp, s, GN)
-                tot_lo, tot_hi = res[64][0], res[112][0]
-                if abs(tot_lo - tot_hi) > 5e-3 or abs(tot_hi - 1) > 2e-2:
+                tot_lo, tot_hi = res[80][0], res[112][0]
+                if abs(tot_lo - tot_hi) > 3e-3 or abs(tot_hi - 1) > 1e-2 or _grid3.cell_mass > 0.02:
                     r.count("ks_undecided")      # under-resolved (normalisation itself is judged above)
                 else:
                     for k in range(3):
@@ -350,6 +357,15 @@ def _grid3(lp, samples, GN):
             pj[a] = torch.exp(lp(pts.to(torch.get_default_dtype())).double()).reshape(GN, GN)
     W = w0[:, None, None] * w1[None, :, None] * w2[None, None, :]
     total = float((pj * W).sum())
+    # resolution adequacy: the midpoint rule is meaningful only where one cell holds a small share of the mass; judged at
+    # the samples (density there x volume of the cell they fall into) - needles (component stds far below the spacing)
+    # leave both resolutions equally wrong, so agreement between resolutions alone proves nothing
+    sub = samples[:4000].double()
+    idx = [torch.bucketize(sub[:, k].contiguous(), axes[k][0]).clamp(0, GN - 1) for k in range(3)]
+    vol = axes[0][1][idx[0]] * axes[1][1][idx[1]] * axes[2][1][idx[2]]
+    with torch.no_grad():
+        dens = torch.exp(lp(sub.to(torch.get_default_dtype())).double())
+    _grid3.cell_mass = float(torch.quantile(dens * vol, 0.995))
     m0 = (pj * (w1[:, None] * w2[None, :])[None]).sum((1, 2))
     m1 = (pj * (w0[:, None] * w2[None, :])[:, None, :]).sum((0, 2))
     m2 = (pj * (w0[:, None] * w1[None, :])[:, :, None]).sum((0, 1))
